@@ -10,15 +10,18 @@ for f in sorted(glob.glob(os.path.join(V, "seeded", "*", "meta.json"))):
     det = []
     for p, c in (m.get("checks") or {}).items():
         if c.get("exit") == 1:
-            det.append("`./check %s` → VIOLATION: %s" % (p, "; ".join(c.get("obligations", [])[:3]) or "(see replay)"))
+            det.append("`./check %s` → VIOLATION: %s" % (p, "; ".join(c.get("obligations", [])[:2]) or "(see replay)"))
         elif c.get("exit") == 2:
             det.append("`./check %s` undecided: %s" % (p, (c.get("undecided") or [""])[0][:90]))
         else:
             det.append("`./check %s` passes (missed)" % p)
     what = (m.get("summary") or "").strip()
     if not what:
-        n = m.get("needs_to_manifest", "")
-        what = re.sub(r"\s+", " ", n)[:200]
+        # first heading line of the seeding agent's notes, without its numbering
+        n = (m.get("needs_to_manifest", "") or "").strip().split("\n")[0]
+        n = re.sub(r"^#+\s*", "", n)
+        n = re.sub(r"^(C\d\d\s*/?\s*)?(seeded change|change|seed)\s*\d+\s*(\(C\d\d\))?\s*[—:-]\s*", "", n, flags=re.I)
+        what = n[:200]
     rows.append("| %s | %s | %s | %s |" % (sid, what.replace("|", "/"), conf, "<br>".join(det) or "not run yet"))
 table = "| id | change (from the seeding agent's notes) | confirmed | verdict of the checks |\n|---|---|---|---|\n" + "\n".join(rows)
 p = os.path.join(V, "DESIGN.md")
